@@ -396,9 +396,11 @@ generic(
 INV_C17 = ["Inv_C17_Renamed", "Inv_C17_Altered", "Inv_C03_NoFalseAlarm", "Inv_C03_Removed", "Inv_C03_Added", "Inv_NoInternal"]
 generic(
     "C17", "model_checking",
-    quick=[dict(scope="chain", mode="simulate", num=80, depth=11, limit=700, mc_maxgens=2, invariants=INV_C17),
+    quick=[dict(scope="chain2", mode="exhaustive", maxops=6, limit=1200, mc_maxgens=3, invariants=INV_C17),
+           dict(scope="chain", mode="simulate", num=60, depth=11, limit=500, mc_maxgens=2, invariants=INV_C17),
            dict(scope="ren", mode="simulate", num=60, depth=10, limit=500, mc_maxgens=1, invariants=INV_C17)],
-    thorough=[dict(scope="chain", mode="simulate", num=1500, depth=13, mc_maxgens=3, invariants=INV_C17),
+    thorough=[dict(scope="chain2", mode="exhaustive", maxops=7, mc_maxgens=3, invariants=INV_C17),
+              dict(scope="chain", mode="simulate", num=1500, depth=13, mc_maxgens=3, invariants=INV_C17),
               dict(scope="ren", mode="simulate", num=1500, depth=12, mc_maxgens=2, invariants=INV_C17)],
     pclauses=["P_C17_Renamed", "P_C17_NoInternal", "P_C17_Altered", "P_C03_NoFalseAlarm", "P_C03_Removed", "P_C03_Added"],
     antecedent=lambda ln, v: bool(v.get("A_moves")) or bool(v.get("A_renames")),
